@@ -151,6 +151,32 @@ impl WsConn {
         }
         self.read_replies(n, 3000)
     }
+    /// sends the given text frames, then a frame with an unknown command as end marker, and returns
+    /// every text frame the server sent before the marker's reply (no time-outs involved: the
+    /// server handles frames in order); None when the connection ended first
+    pub fn frames_until_marker(&mut self, frames: &[String]) -> Option<Vec<String>> {
+        for f in frames {
+            if !self.send_text(f.as_bytes()) {
+                return None;
+            }
+        }
+        if !self.send_text(b"zzz-end-marker") {
+            return None;
+        }
+        let mut out = vec![];
+        loop {
+            match self.read_frame(5000) {
+                Some(Frame::Text(t)) => {
+                    if t.starts_with("error unknown command: zzz-end-marker") {
+                        return Some(out);
+                    }
+                    out.push(t);
+                }
+                Some(Frame::Close) | None => return None,
+                Some(_) => {}
+            }
+        }
+    }
     /// closing handshake; true when the server answered it (its on_close has run by then or runs right after)
     pub fn close_and_wait(mut self) -> bool {
         let _ = self.send_frame(8, &1000u16.to_be_bytes());
